@@ -58,6 +58,7 @@ def run(R, ctx):
     R.rule('R01.5', 'TABLE(index_for_rcurrent)')
     R.rule('R01.6', 'PROVENANCE: timestamp infix -> collision check -> rotated name / truncating open')
     R.rule('R01.7', 'DOM(rotation decision, write_all)')
+    R.rule('R01.9', 'SIBLING-AGREEMENT: every file-name timestamp is rendered in the one configured time zone (same flag at every site)')
 
     emission(R, ctx)
     sink_table(R, ctx, 'R01.2')
@@ -72,7 +73,120 @@ def run(R, ctx):
               'writers::file_log_writer::state::RollState::rotation_necessary' in cg.reachable([callee_name(t)], spawn=False)]
     R.check('R01.7', f"{b.path}|decide-before-write", bool(mounts) and any(C.dominates(b, m, wbb) for m in mounts),
             "rotation decision dominates write_all", "write_all is not dominated by the rotation decision", where=b.loc(wbb))
+    one_clock_rule(R, ctx)
     family_predicate_proxy(R, ctx, 'R01.8', 'the listing the collision check and the numbering rely on recognises exactly the family (shared with R14.2)')
+
+# ---------------------------------------------------------------------------------------------- R01.9
+TS_FORMAT = r'^chrono::.*::format(_with_items|_localized)?$'
+TO_UTC = r'^chrono::.*::(naive_utc|to_utc|with_timezone)$'
+
+
+def _flag_sources(ctx, path, op, depth=4):
+    """where a bool operand of a call in `path` comes from: set of ('field', <last field name>) / ('const', v) / ('other', text)"""
+    f, ip = ctx.f, ctx.ip
+    b = f.bodies[path]
+    pv = ip.prov(path)
+    out = set()
+    if op['k'] == 'const':
+        return {('const', const_repr(op))}
+    pl = op['place']
+    names = tuple(e.get('name') or str(e.get('i')) for e in pl['p'] if e['k'] == 'field')
+    cands = set()
+    if names:
+        cands.add(names)
+    for fp in pv.field_paths(pl['l']):
+        cands.add(tuple(x for x in fp if not x.startswith('param')) + names)
+    cands = {c for c in cands if c}
+    for c in cands:
+        out.add(('field', c[-1]))
+    if not cands:
+        roots = pv.op_roots(op)
+        params = {r_[1] for r_ in roots if r_[0] == 'param'}
+        consts = {r_[1] for r_ in roots if r_[0] == 'const'}
+        for c in consts:
+            out.add(('const', c))
+        for i in params:
+            if depth == 0:
+                out.add(('other', f"parameter {i} of {path}"))
+                continue
+            callers = [(a, bb) for (a, bb, k) in ctx.cg.callers.get(path, []) if bb is not None and k in ('direct', 'dyn')]
+            if not callers:
+                out.add(('other', f"parameter {i} of {path} (no caller)"))
+            for (a, bb) in callers:
+                t = f.bodies[a].blocks[bb]['term']
+                if t['k'] == 'call' and len(t['args']) >= i:
+                    out |= _flag_sources(ctx, a, t['args'][i - 1], depth - 1)
+        if not params and not consts:
+            out.add(('other', ','.join(sorted(str(r_[:2]) for r_ in roots))[:120]))
+    return out
+
+
+def one_clock_rule(R, ctx):
+    """R01.9 - necessary for `sorted by name = order of logging`: every timestamp that becomes part of a file name of the file log writer
+    is formatted in ONE time zone, the configured one: (a) each function under writers::file_log_writer that formats a chrono timestamp
+    chooses between the UTC and the local rendering by a boolean input, (b) at every (transitive) call site that boolean is the same
+    configuration field.  A first file named in local time followed by rotated files named in UTC (or vice versa) sorts out of order
+    wherever the zone offset is not zero."""
+    f, cg = ctx.f, ctx.cg
+    fns = sorted({b.path for b in f.fn_bodies() if b.path.startswith('writers::file_log_writer::')
+                  and any(re.search(TS_FORMAT, callee_name(t)) for _, t in b.calls())})
+    if not fns:
+        raise CheckError("R01.9: no function under writers::file_log_writer formats a chrono timestamp: timestamp naming not recognised")
+    sources = {}
+    for p in fns:
+        b = f.bodies[root_fn(p)] if root_fn(p) in f.bodies else f.bodies[p]
+        an = [l.get('name') or f"p{i}" for i, l in enumerate(b.locals[1:b.arg_count + 1])]
+        try:
+            rows = FDI(f, effects=[TS_FORMAT, TO_UTC], no_inline=[r'.']).run(b.path, arg_names=an)
+        except Exception as e:
+            raise CheckError(f"R01.9 {b.path}: {type(e).__name__} {e}")
+        utc_rows = [r for r in rows if any(re.search(TS_FORMAT, e[0]) for e in r.effects) and any(re.search(TO_UTC, e[0]) for e in r.effects)]
+        loc_rows = [r for r in rows if any(re.search(TS_FORMAT, e[0]) for e in r.effects) and not any(re.search(TO_UTC, e[0]) for e in r.effects)]
+        key = f"{b.path}|zone-by-configuration"
+        if not utc_rows or not loc_rows:
+            R.bad('R01.9', key, f"{b.path} formats a timestamp for a file name always in {'UTC' if utc_rows else 'local time'}, without regard to the configured "
+                  "time zone: the names it produces and the names its siblings produce (which honour the setting) do not sort in the order of logging "
+                  "when use_utc is set and the zone offset is not zero", where=b.loc())
+            continue
+        # the deciding atom: present in every formatting row, True in all UTC rows and False in all local rows (or vice versa), a boolean input
+        atoms = [a for a in utc_rows[0].cmap if all(a in r.cmap for r in utc_rows + loc_rows)
+                 and len({r.cmap[a] for r in utc_rows}) == 1 and len({r.cmap[a] for r in loc_rows}) == 1 and utc_rows[0].cmap[a] != loc_rows[0].cmap[a]]
+        if len(atoms) != 1:
+            raise CheckError(f"R01.9 {b.path}: the input that selects UTC is not a single boolean atom ({atoms})")
+        a = atoms[0]
+        x = (utc_rows[0].atom_info.get(a) or {}).get('x')
+        R.ok('R01.9', key, f"{b.path}: UTC rendering iff `{a}`")
+        if x and x[0] == 'in' and x[1] in an:
+            i = an.index(x[1]) + 1
+            callers = [(c, bb) for (c, bb, k) in cg.callers.get(b.path, []) if bb is not None and k in ('direct', 'dyn')]
+            for (c, bb) in callers:
+                t = f.bodies[c].blocks[bb]['term']
+                for src in _flag_sources(ctx, c, t['args'][i - 1]):
+                    sources.setdefault(src, []).append((c, f.bodies[c].loc(bb)))
+        elif x and x[0] == 'field':
+            sources.setdefault(('field', x[2]), []).append((b.path, b.loc()))
+        else:
+            raise CheckError(f"R01.9 {b.path}: deciding atom `{a}` is neither a parameter nor a field ({x})")
+    fields = {s for s in sources if s[0] == 'field'}
+    if len(fields) > 1:
+        # the reference is the field most sites use (a tie leaves every site reported)
+        cnt = sorted(((len(sources[s]), s) for s in fields), reverse=True)
+        if cnt[0][0] > cnt[1][0]:
+            fields = {cnt[0][1]}
+    for s, sites in sorted(sources.items()):
+        if s[0] == 'field' and fields == {s}:
+            for (c, loc) in sites:
+                R.ok('R01.9', f"{root_fn(c)}|zone-flag", f"{c}: zone flag = configuration field `{s[1]}`")
+        elif s[0] == 'other':
+            raise CheckError(f"R01.9: origin of the zone flag not recognised: {s[1]} at {sites[:2]}")
+        else:
+            for (c, loc) in sites:
+                R.bad('R01.9', f"{root_fn(c)}|zone-flag", f"{c} formats a file-name timestamp with the zone flag {s[1]!r} "
+                      f"({'a constant' if s[0] == 'const' else 'a different field'}; the other sites use {sorted(x_[1] for x_ in fields)}): names from this site and names from "
+                      "the other sites are in different time zones and do not sort in the order of logging", where=loc)
+    if len(sources) == 0:
+        raise CheckError("R01.9: no call site of the timestamp formatter found")
+
 
 # ---------------------------------------------------------------------------------------------- R01.1
 def emission(R, ctx, rule='R01.1', le_check=True, roots=(FILE_ROOT,), le_pattern='line_ending', only=None):
